@@ -1,9 +1,8 @@
 package main
 
 import (
-	"go/token"
-	"go/types"
 	"fmt"
+	"go/types"
 	"strings"
 
 	"golang.org/x/tools/go/ssa"
@@ -19,7 +18,10 @@ func init() {
 			"(b) the limited writer: the underlying write is reachable only with N > 0, the slice written is cut to N when longer, and N is decreased by the count written on every path; " +
 			"(c) reply validation: the runner's success exits are cut by the process error and by json.Unmarshal(stdout, response) err == nil (whole-buffer decode: trailing data is an error); the error mapping returns the executable-file error for empty stderr, " +
 			"the malformed-plugin error when stderr does not decode, and the plugin's own decoded error otherwise; (d) metadata: run error, the validator (name, description, version, url, capabilities, contract versions non-empty, supported contract version) and " +
-			"metadata.Name == the plugin's name are fail-closed; (e) who-may-call: exec.Command/CommandContext only there; the runner is the only caller of the commander.",
+			"metadata.Name == the plugin's name are fail-closed; (e) who-may-call: exec.Command/CommandContext only there; the runner is the only caller of the commander. " +
+			"Shapes: the command may be created by a constructor function and configured by unexported helpers (every store to a field on that chain must be acceptable, one must be unconditional before Run; Run may be spelled Start + Wait); " +
+			"the runner's mapping is read off its flattened ways of returning (own returns, returns of unexported helpers whose result it returns unchanged, edges of a returned phi), with the helpers' parameters replaced by the call arguments; " +
+			"a wrapper that forwards the commander's three results unchanged and has one call site is looked through; json.Unmarshal may sit behind a helper that returns its error (and the decoded object).",
 		NotCov:  "actual timing and memory: os/exec semantics are trusted (with WaitDelay set, Wait returns at most that long after the context ends even if descendants hold the pipes).",
 		Trusted: []string{"go/types, go/ssa", "os/exec (CommandContext kills the process when the context ends; WaitDelay bounds the wait for the pipes)", "encoding/json.Unmarshal rejects trailing data"},
 	})
@@ -47,103 +49,16 @@ func runC17(c *Ctx) {
 		return
 	}
 	c.SeenFn(OUT.String())
-	c17Command(c, OUT, cmdCall)
+	// OUT: the function that runs the command (the creating function itself, or the single caller of a constructor)
+	cmd := c17CommandTypestate(c, OUT, cmdCall)
 	c17LimitedWriter(c)
-	c17Runner(c, OUT)
+	if cmd == nil {
+		// no Run found on the command (already reported): the remaining rules still run, on the creating function
+		cmd = &c17Cmd{OUT: OUT}
+	}
+	c.SeenFn(cmd.OUT.String())
+	c17Runner(c, cmd)
 	c.MinCount("", 18, "plugin containment obligations")
-}
-
-func c17Command(c *Ctx, OUT *ssa.Function, cmdCall *ssa.Call) {
-	w := c.W
-	site := w.InstrPos(cmdCall)
-	c.Check(strings.HasPrefix(desc(cmdCall.Call.Args[0]), "param:"), "command/context", "the process is bound to the caller's context", site, "context is "+desc(cmdCall.Call.Args[0]))
-	// Run call
-	var run *ssa.Call
-	for _, ci := range allCalls(OUT) {
-		if call, ok := ci.(*ssa.Call); ok && calleeName(call) == "(*os/exec.Cmd).Run" && call.Call.Args[0] == ssa.Value(cmdCall) {
-			run = call
-		}
-	}
-	if run == nil {
-		c.Bad("command/run", "the command is run with Run (start + wait)", site, "no Run on the created command")
-		return
-	}
-	stores := map[string]*ssa.Store{}
-	for _, r := range *cmdCall.Referrers() {
-		fa, ok := r.(*ssa.FieldAddr)
-		if !ok {
-			continue
-		}
-		for _, rr := range *fa.Referrers() {
-			if st, ok := rr.(*ssa.Store); ok && st.Addr == fa {
-				stores[fieldName(cmdCall.Type(), fa.Field)] = st
-			}
-		}
-	}
-	before := func(st *ssa.Store) bool {
-		if st == nil {
-			return false
-		}
-		if st.Block() == run.Block() {
-			return instrIndex(st) < instrIndex(run)
-		}
-		return st.Block().Dominates(run.Block())
-	}
-	for _, stream := range []string{"Stdout", "Stderr"} {
-		st := stores[stream]
-		ok := before(st)
-		detail := "not set unconditionally before Run"
-		if ok {
-			d := desc(st.Val)
-			// call:ngo/internal/io.LimitWriter(alloc:bytes.Buffer<...>, const:N)
-			ok = false
-			if call, isCall := unwrap(st.Val).(*ssa.Call); isCall {
-				g := staticCallee(call)
-				if g != nil && w.IsProductFn(g) && len(call.Call.Args) == 2 {
-					_, isBuf := call.Call.Args[0].(*ssa.MakeInterface)
-					buf := unwrap(call.Call.Args[0])
-					_, isLocal := buf.(*ssa.Alloc)
-					if k, isK := call.Call.Args[1].(*ssa.Const); isK && (isBuf || isLocal) && isLocal {
-						var v int64
-						fmt.Sscan(constString(k), &v)
-						if v > 0 && c17IsLimiterCtor(w, g) {
-							ok = true
-						}
-						detail = fmt.Sprintf("cap %d", v)
-					}
-				}
-			}
-			if !ok {
-				detail = stream + " is " + d
-			}
-		}
-		c.Evals++
-		c.Check(ok, "command/"+strings.ToLower(stream)+"-capped", "typestate: before Run, "+stream+" is the module's limited writer over a local buffer with a positive constant cap", w.InstrPos(run), detail)
-	}
-	{
-		st := stores["WaitDelay"]
-		ok := before(st)
-		detail := "WaitDelay is not set unconditionally before Run (a descendant holding the pipes delays the return without bound)"
-		if ok {
-			k, isK := st.Val.(*ssa.Const)
-			var v int64
-			if isK {
-				fmt.Sscan(constString(k), &v)
-			}
-			ok = isK && v > 0
-			if !ok {
-				detail = "WaitDelay is " + desc(st.Val)
-			}
-		}
-		c.Evals++
-		c.Check(ok, "command/wait-delay", "typestate: before Run, on every path, WaitDelay is a positive constant", w.InstrPos(run), detail)
-	}
-	{
-		st := stores["Stdin"]
-		ok := before(st) && strings.HasPrefix(desc(st.Val), "call:bytes.NewReader(param:")
-		c.Check(ok, "command/stdin", "typestate: before Run, Stdin is a reader over the request bytes", w.InstrPos(run), "Stdin is not the request")
-	}
-	// outputs returned: stdout bytes on success, stderr bytes on failure
 }
 
 // c17IsLimiterCtor: g returns &LimitedWriter{W: w, N: limit}.
@@ -260,6 +175,10 @@ func c17LimitedWriter(c *Ctx) {
 		}
 		okCut = full && cutV
 	}
+	// the same cut spelled with the builtin min: p[:min(len(p), B)] is p[:len(p)] = p when len(p) <= B and p[:B] otherwise
+	if d := desc(arg); d == pp+"[:call:builtin:min(len("+pp+"),"+B+")]" || d == pp+"[:call:builtin:min("+B+",len("+pp+"))]" {
+		okCut = true
+	}
 	c.Check(okCut, "limited-writer/cut-to-remaining", "the bytes forwarded are p when len(p) <= remaining budget and p[:remaining] otherwise", w.InstrPos(under), "forwarded "+desc(arg)+" with remaining budget "+B)
 	// the accounting happens on every path after the write
 	okDec := false
@@ -302,8 +221,9 @@ func returnBlocks(fn *ssa.Function) map[int]bool {
 	return m
 }
 
-func c17Runner(c *Ctx, OUT *ssa.Function) {
+func c17Runner(c *Ctx, cmd *c17Cmd) {
 	w := c.W
+	OUT := cmd.OUT
 	// the runner: the function invoking the commander interface
 	var RUN *ssa.Function
 	var oc *ssa.Call
@@ -324,11 +244,15 @@ func c17Runner(c *Ctx, OUT *ssa.Function) {
 	}
 	c.SeenFn(RUN.String())
 	c.Check(nCallers == 1, "runner/single", "the commander is invoked from exactly one function (all protocol commands go through the same validation)", w.FnPos(RUN), fmt.Sprintf("%d call sites", nCallers))
+	// a wrapper that only forwards the commander's results is looked through (extra_c17.go)
+	if nCallers == 1 {
+		RUN, oc = c17LiftRunner(c, RUN, oc)
+		c.SeenFn(RUN.String())
+	}
 	fi := w.Info(RUN)
 	m := Mode{Kind: mErr}
 	s := w.Summarize(RUN, m)
 	c.Evals += s.States
-	od := desc(oc)
 	var respP string
 	for _, p := range RUN.Params {
 		if p.Type().String() == "interface{}" || p.Type().String() == "any" {
@@ -336,69 +260,13 @@ func c17Runner(c *Ctx, OUT *ssa.Function) {
 		}
 	}
 	c.requireOnExits("runner", RUN, s.Exits, []Need{
-		{Name: "process-error", What: "commander.Output err == nil (the process exited successfully)", Subs: []string{"EQ(" + od + "#err,nil)"}},
-		{Name: "reply-decodes", What: "json.Unmarshal(stdout, response) err == nil (whole buffer: trailing data is rejected)", Subs: []string{"EQ(call:encoding/json.Unmarshal(" + od + "#0," + respP + ")#err,nil)"}},
+		{Name: "process-error", What: "commander.Output err == nil (the process exited successfully)", Subs: []string{"EQ(" + c17ResultDesc(oc, 2) + ",nil)"}},
+		{Name: "reply-decodes", What: "json.Unmarshal(stdout, response) err == nil (whole buffer: trailing data is rejected)", Subs: []string{"EQ(call:encoding/json.Unmarshal(" + c17ResultDesc(oc, 0) + "," + respP + ")#err,nil)"}},
 	})
-	// error mapping
-	type exp struct{ key, typ, what string }
-	stderrD := od + "#1"
-	cases := map[string]bool{}
-	// the mapping is read off the exits of the runner, or of an unexported helper the runner's failing branch returns through
-	// (`return mapError(…, stderr, err)`): there the process error is already known to be non-nil and stderr is a parameter
-	var scan func(fn *ssa.Function, stderrD string, failedAlready bool, depth int)
-	scan = func(fn *ssa.Function, stderrD string, failedAlready bool, depth int) {
-		ffi := w.Info(fn)
-		var um *ssa.Call
-		for _, ci := range findCalls(fn, "encoding/json.Unmarshal") {
-			call := ci.(*ssa.Call)
-			if desc(call.Call.Args[0]) == stderrD {
-				um = call
-			}
-		}
-		for _, b := range fn.Blocks {
-			r, ok := blockTerm(b).(*ssa.Return)
-			if !ok || len(r.Results) != 1 {
-				continue
-			}
-			g, _ := ffi.mustPassBetween([]int{0}, map[int]bool{b.Index: true})
-			if b.Index == 0 {
-				g = map[string]string{}
-			}
-			c.Evals++
-			failed := failedAlready || labelHas(g, "NE("+od+"#err,nil)")
-			if call, ok := r.Results[0].(*ssa.Call); ok && failed && depth < 2 {
-				if h := staticCallee(call); h != nil && h.Blocks != nil && w.IsProductFn(h) && !token.IsExported(h.Name()) && len(h.Params) == len(call.Call.Args) {
-					for k, a := range call.Call.Args {
-						if desc(a) == stderrD {
-							c.SeenFn(h.String())
-							scan(h, "param:"+h.Params[k].Name(), true, depth+1)
-						}
-					}
-				}
-				continue
-			}
-			mi, ok := r.Results[0].(*ssa.MakeInterface)
-			if !ok {
-				continue
-			}
-			tn := namedOf(mi.X.Type())
-			switch {
-			case tn == "ngo/plugin.PluginExecutableFileError" && failed && labelHas(g, "EQ(len("+stderrD+"),const:0)"):
-				cases["executable"] = true
-			case tn == "ngo/plugin.PluginMalformedError" && failed && um != nil && labelHas(g, "NE(len("+stderrD+"),const:0)") && labelHas(g, "NE("+desc(um)+",nil)"):
-				cases["malformed-stderr"] = true
-			case tn == "ngo/plugin/proto.RequestError" && failed && um != nil && labelHas(g, "EQ("+desc(um)+",nil)"):
-				// the decoded error object
-				if al, _ := unwrapLoadAlloc(mi.X); al != nil && al == unwrap(um.Call.Args[1]) {
-					cases["plugin-error"] = true
-				}
-			case tn == "ngo/plugin.PluginMalformedError" && !failedAlready && labelHas(g, "EQ("+od+"#err,nil)"):
-				cases["malformed-stdout"] = true
-			}
-		}
-	}
-	scan(RUN, stderrD, false, 0)
+	// error mapping: read off the runner's flattened ways of returning (extra_c17.go): its own returns, the returns of the
+	// unexported helpers whose result it returns unchanged, the incoming edges of a returned phi
 	_ = fi
+	cases := c17ErrorMapping(c, RUN, oc, respP)
 	for _, k := range []string{"executable", "malformed-stderr", "plugin-error", "malformed-stdout"} {
 		what := map[string]string{
 			"executable":       "failing process with empty stderr -> PluginExecutableFileError",
@@ -408,35 +276,9 @@ func c17Runner(c *Ctx, OUT *ssa.Function) {
 		}[k]
 		c.Check(cases[k], "runner/error-mapping/"+k, "error mapping: "+what, w.FnPos(RUN), "this case is not mapped as specified")
 	}
-	// the commander's outputs: stdout on success, stderr on failure, and the error is propagated
-	ofi := w.Info(OUT)
-	os_ := w.Summarize(OUT, m)
-	okOut := len(os_.Exits) > 0
-	// the buffer behind cmd.Stdout
-	stdoutBuf := "alloc:bytes.Buffer<?>"
-	for _, b := range OUT.Blocks {
-		for _, in := range b.Instrs {
-			if st, ok := in.(*ssa.Store); ok {
-				if fa, ok := st.Addr.(*ssa.FieldAddr); ok && fieldName(fa.X.Type(), fa.Field) == "Stdout" && namedOf(fa.X.Type()) == "os/exec.Cmd" {
-					d := desc(st.Val)
-					if i := strings.Index(d, "alloc:bytes.Buffer<"); i >= 0 {
-						if j := strings.Index(d[i:], ">"); j >= 0 {
-							stdoutBuf = d[i : i+j+1]
-						}
-					}
-				}
-			}
-		}
-	}
-	for _, ex := range os_.Exits {
-		if !strings.HasPrefix(desc(ex.Ret.Results[0]), "call:(*bytes.Buffer).Bytes("+stdoutBuf) {
-			okOut = false
-		}
-		if _, h := hasLabel(ex.Checked, "EQ(call:(*os/exec.Cmd).Run(", "#err,nil)"); !h {
-			okOut = false
-		}
-	}
-	_ = ofi
+	// the commander's outputs: stdout on success, stderr on failure, and the error is propagated: decided on the
+	// commander's ways of returning (extra_c17.go)
+	okOut := c17OutputOnSuccess(c, cmd)
 	c.Check(okOut, "runner/output-on-success", "the commander returns the captured stdout only when Run succeeded", w.FnPos(OUT), "stdout is returned otherwise")
 	c17Metadata(c, RUN)
 }
